@@ -457,8 +457,8 @@ def run(ctx):
     plan = []
     # focused programs first: only lowered constructs, all in the Coq-modelled subset when `simple`
     FOCUS = [("select", "where1"), ("where1", "select"), ("loop", "where1"), ("select", "select"), ("where1", "where1"),
-             ("where2", "aassign"), ("elif", "where1", "ifs"), ("select", "loop")]
-    n_focus = ctx.pick(16, 160)
+             ("where2", "aassign"), ("elif", "where1", "ifs"), ("select", "loop"), ("loop", "loop")]
+    n_focus = ctx.pick(18, 180)
     for i in range(n_focus):
         f = FOCUS[i % len(FOCUS)]
         plan.append(dict(simple=("where2" not in f and i % 4 != 3), clash=(i % 5 == 2), defects=(), allow_cb=False, focus=f))
@@ -485,7 +485,10 @@ def run(ctx):
         g = gen.SGen(rng, defects=cfg["defects"], clash=cfg["clash"], simple=cfg["simple"], allow_cb=cfg["allow_cb"],
                      lbs=cfg.get("lbs"))
         prog = g.focused(cfg["focus"]) if cfg.get("focus") else g.program()
-        c = run_a(impl, g, prog, nstores, srng, reread=(ctx.thorough or i % 3 == 0))
+        # the written TEXT is re-read (the only way to observe the writer in route (a)): always in thorough, and
+        # in quick for the short focused programs, for programs with a negative DO step, and every third one
+        neg = any(s_[0] == "do" and s_[4] is not None and s_[4][1] < 0 for s_ in srcl.walk_stmts(prog))
+        c = run_a(impl, g, prog, nstores, srng, reread=(ctx.thorough or bool(cfg.get("focus")) or neg or i % 3 == 0))
         c.cfg = cfg
         cases.append(c)
         kinds = sorted({s[0] for s in srcl.walk_stmts(prog)})
@@ -628,7 +631,7 @@ def run(ctx):
         ctx.sample({"source": c.text[-700:], "re-written": (c.written or "")[-700:], "valid_stores": c.valid_stores,
                     "failures": c.failures[:1]})
     concrete = bool(ctx.violations) or bool(ctx.known_printed)
-    if bad:
+    if bad and not concrete:
         c = cases[coq_idx[bad[0]]]
         ctx.violation({"property": "C01", "broken": "correspondence: the tree built by the reader is not `lower` "
                        "(coq/C01/Model.v) of the source program, for either trip-count variant",
